@@ -141,7 +141,7 @@ theorem matcherO_congr (sh : OShape) (l1 l2 : Pol) (hg : ∀ x, x ∈ l1.g ↔ x
     matcherO sh l1 = matcherO sh l2 := by
   funext req pv
   unfold matcherO
-  split <;> simp only [hasLinkQ_congr _ _ hg]
+  split <;> (split <;> simp only [hasLinkQ_congr _ _ hg])
 
 /-- **Frame theorem (all failure kinds).** If the ordering `load_policy` raises — adapter failure after any prefix,
     a failure while ordering, or a failure while the role links are built from the ORDERED rules — the policy (and
@@ -590,21 +590,207 @@ theorem orderStore_no_fuel (o : OrdCfg) (st : Pol) : orderStore o st ≠ .error 
         rcases sortByPriorityE_spec pi p1 with ⟨_, he⟩ | ⟨_, _, he⟩ | ⟨_, _, _, he⟩ | ⟨_, _, _, he⟩ <;>
           rw [he] at h2 <;> cases h2
 
+/-! ## the ordering step is a STABLE sort, whatever the kind of key (numeric, string, hierarchy level)
+
+`le` is a total preorder on rules ("key not greater").  Sorted + permutation + stable is the specification of Python's
+`sorted(list, key=…)`; together with `sortByPriorityE_spec` / `sortBySubjectE_ok` it says which list a successful reload
+installs (the driver additionally compares the model's result with core `List.mergeSort` on every store of the tie). -/
+
+/-- `le` is total and transitive -/
+structure TotalPre (le : Rule → Rule → Bool) : Prop where
+  total : ∀ a b, le a b = false → le b a = true
+  trans : ∀ a b c, le a b = true → le b c = true → le a c = true
+
+def SortedLe (le : Rule → Rule → Bool) (l : List Rule) : Prop := l.Pairwise (fun a b => le a b = true)
+
+/-- same key: not greater in both directions -/
+def eqv (le : Rule → Rule → Bool) (c x : Rule) : Bool := le x c && le c x
+
+theorem insertByLe_sorted (le : Rule → Rule → Bool) (hle : TotalPre le) (r : Rule) (l : List Rule)
+    (hs : SortedLe le l) : SortedLe le (insertByLe le r l) := by
+  induction l with
+  | nil => simp [insertByLe, SortedLe]
+  | cons x xs ih =>
+    have hx := List.pairwise_cons.mp hs
+    unfold insertByLe
+    split
+    · rename_i hxr
+      refine List.pairwise_cons.mpr ⟨?_, ih hx.2⟩
+      intro y hy
+      rcases List.mem_cons.mp ((insertByLe_perm le r xs).mem_iff.mp hy) with rfl | h
+      · exact hxr
+      · exact hx.1 y h
+    · rename_i hxr
+      have hrx : le r x = true := hle.total x r (by simpa using hxr)
+      refine List.pairwise_cons.mpr ⟨?_, hs⟩
+      intro y hy
+      rcases List.mem_cons.mp hy with rfl | h
+      · exact hrx
+      · exact hle.trans r x y hrx (hx.1 y h)
+
+/-- inserting into a sorted list keeps every same-key class in order, the new rule last in its class -/
+theorem insertByLe_stable (le : Rule → Rule → Bool) (hle : TotalPre le) (c r : Rule) (l : List Rule)
+    (hs : SortedLe le l) :
+    (insertByLe le r l).filter (eqv le c) = l.filter (eqv le c) ++ (if eqv le c r then [r] else []) := by
+  induction l with
+  | nil => cases h : eqv le c r <;> simp [insertByLe, List.filter, h]
+  | cons x xs ih =>
+    have hx := List.pairwise_cons.mp hs
+    unfold insertByLe
+    split
+    · simp only [List.filter_cons, ih hx.2]
+      split <;> simp
+    · rename_i hxr
+      have hxr' : le x r = false := by simpa using hxr
+      by_cases hrc : eqv le c r = true
+      · -- every element of `x :: xs` is strictly behind `r`, so none shares `c`'s key
+        have hnone : ∀ y ∈ x :: xs, eqv le c y = false := by
+          intro y hy
+          have hyr : le y r = false := by
+            rcases List.mem_cons.mp hy with rfl | h
+            · exact hxr'
+            · cases hyr : le y r with
+              | false => rfl
+              | true => rw [hle.trans x y r (hx.1 y h) hyr] at hxr'; cases hxr'
+          cases hyc : eqv le c y with
+          | false => rfl
+          | true =>
+            simp only [eqv, Bool.and_eq_true] at hyc hrc
+            rw [hle.trans y c r hyc.1 hrc.2] at hyr; cases hyr
+        have hf : (x :: xs).filter (eqv le c) = [] := List.filter_eq_nil_iff.mpr fun y hy => by simp [hnone y hy]
+        rw [List.filter_cons, hf]
+        simp [hrc]
+      · have hrc' : eqv le c r = false := by simpa using hrc
+        rw [List.filter_cons]
+        simp [hrc']
+
+/-- **The ordering sort: sorted, a permutation, and stable** — for every total preorder on keys -/
+theorem sortByLe_spec (le : Rule → Rule → Bool) (hle : TotalPre le) (l : List Rule) :
+    SortedLe le (sortByLe le l) ∧ (sortByLe le l).Perm l ∧
+    ∀ c, (sortByLe le l).filter (eqv le c) = l.filter (eqv le c) := by
+  refine ⟨?_, sortByLe_perm le l, ?_⟩
+  · unfold sortByLe
+    suffices h : ∀ acc : List Rule, SortedLe le acc → SortedLe le (l.foldl (fun acc r => insertByLe le r acc) acc) from
+      h [] List.Pairwise.nil
+    induction l with
+    | nil => intro acc hs; exact hs
+    | cons r rs ih => intro acc hs; exact ih _ (insertByLe_sorted le hle r acc hs)
+  · intro c
+    unfold sortByLe
+    suffices h : ∀ acc : List Rule, SortedLe le acc →
+        (l.foldl (fun acc r => insertByLe le r acc) acc).filter (eqv le c) = acc.filter (eqv le c) ++ l.filter (eqv le c) by
+      simpa using h [] List.Pairwise.nil
+    induction l with
+    | nil => intro acc _; simp
+    | cons r rs ih =>
+      intro acc hs
+      simp only [List.foldl_cons]
+      rw [ih _ (insertByLe_sorted le hle r acc hs), insertByLe_stable le hle c r acc hs, List.filter_cons]
+      split <;> simp
+
+theorem natLe_totalPre (pi : Nat) : TotalPre (natLe pi) where
+  total a b h := by simp only [natLe, decide_eq_false_iff_not, decide_eq_true_eq] at h ⊢; omega
+  trans a b c h1 h2 := by simp only [natLe, decide_eq_true_eq] at h1 h2 ⊢; omega
+
+theorem strLe_totalPre (pi : Nat) : TotalPre (strLe pi) where
+  total a b h := by
+    simp only [strLe, Bool.not_eq_false', Bool.not_eq_true', decide_eq_true_eq, decide_eq_false_iff_not] at h ⊢
+    exact String.lt_asymm h
+  trans a b c h1 h2 := by
+    simp only [strLe, Bool.not_eq_true', decide_eq_false_iff_not] at h1 h2 ⊢
+    exact String.not_lt.mpr (String.le_trans (String.not_lt.mp h1) (String.not_lt.mp h2))
+
+/-- the key-based sort of Model/Policy.lean (`sort_policies_by_subject_hierarchy`) is the same insertion sort -/
+theorem sortByKey_eq_sortByLe (key : Rule → Nat) (l : List Rule) :
+    sortByKey key l = sortByLe (fun a b => decide (key a ≤ key b)) l := by
+  unfold sortByKey sortByLe
+  congr 1
+  funext acc r
+  induction acc with
+  | nil => rfl
+  | cons x xs ih => simp only [insertByKey, insertByLe, decide_eq_true_eq, ih]
+
+theorem keyLe_totalPre (key : Rule → Nat) : TotalPre (fun a b => decide (key a ≤ key b)) where
+  total a b h := by simp only [decide_eq_false_iff_not, decide_eq_true_eq] at h ⊢; omega
+  trans a b c h1 h2 := by simp only [decide_eq_true_eq] at h1 h2 ⊢; omega
+
+/-- **Whatever a successful priority sort returns is the stable sort of the delivered rules** (numeric keys or string
+    keys): ascending, a permutation, same-priority rules in delivery order. -/
+theorem sortByPriorityE_stable_sort (pi : Nat) (l l' : List Rule) (h : sortByPriorityE pi l = .ok l') :
+    ∃ le, TotalPre le ∧ (le = natLe pi ∨ le = strLe pi) ∧ SortedLe le l' ∧ l'.Perm l ∧
+      ∀ c, l'.filter (eqv le c) = l.filter (eqv le c) := by
+  rcases sortByPriorityE_spec pi l with ⟨_, he⟩ | ⟨_, _, he⟩ | ⟨_, _, _, he⟩ | ⟨_, _, _, he⟩
+  · rw [he] at h; cases h
+  · rw [he] at h; cases h
+    obtain ⟨h1, h2, h3⟩ := sortByLe_spec (natLe pi) (natLe_totalPre pi) l
+    exact ⟨_, natLe_totalPre pi, Or.inl rfl, h1, h2, h3⟩
+  · rw [he] at h; cases h
+    obtain ⟨h1, h2, h3⟩ := sortByLe_spec (strLe pi) (strLe_totalPre pi) l
+    exact ⟨_, strLe_totalPre pi, Or.inr rfl, h1, h2, h3⟩
+  · rw [he] at h; cases h
+
+/-- … and so is what a successful subject-hierarchy sort returns: rules of subjects on the same level keep their
+    delivery order -/
+theorem sortBySubjectE_stable_sort (d : Option Nat) (g p l' : List Rule) (h : sortBySubjectE d g p = .ok l') :
+    ∃ m, ∀ c, l'.filter (eqv (fun a b => decide (subjKey d m a ≤ subjKey d m b)) c) =
+              p.filter (eqv (fun a b => decide (subjKey d m a ≤ subjKey d m b)) c) := by
+  obtain ⟨_, es, m, _, _, _, hl, _, _⟩ := sortBySubjectE_ok d g p l' h
+  refine ⟨m, fun c => ?_⟩
+  rw [hl, sortByKey_eq_sortByLe]
+  exact (sortByLe_spec _ (keyLe_totalPre _) p).2.2 c
+
 /-! ## the invariant survives ordering reloads: arbitrary further use -/
 
-/-- admissible calls of an ordering enforcer: as in C04, and an ordering reload is given a well-formed store -/
+theorem incLinks_ok_sized (count : Nat) (add : Bool) (pol : List Rule) (rs store res : List Rule)
+    (h : incLinks count add pol store rs = .ok res) : Sized count rs := by
+  induction rs generalizing store with
+  | nil => intro r hr; simp at hr
+  | cons r rs ih =>
+    unfold incLinks at h
+    split at h
+    · cases h
+    · rename_i hlen
+      intro x hx
+      rcases List.mem_cons.mp hx with rfl | hx'
+      · omega
+      · exact ih _ h x hx'
+
+/-- links can only be built from grouping rules that are long enough for their role definition -/
+theorem rebuildAll_ok_sized (cfg : Cfg) (pol l : Pol) (h : rebuildAll cfg pol = .ok l) :
+    Sized cfg.gCount pol.g ∧ Sized cfg.g2Count pol.g2 := by
+  unfold rebuildAll at h
+  cases hg : buildLinks cfg.gCount pol.g with
+  | error e => rw [hg] at h; cases h
+  | ok lg =>
+    rw [hg] at h
+    simp only [] at h
+    cases hg2 : buildLinks cfg.g2Count pol.g2 with
+    | error e => rw [hg2] at h; cases h
+    | ok lg2 => exact ⟨incLinks_ok_sized _ _ _ _ _ _ hg, incLinks_ok_sized _ _ _ _ _ _ hg2⟩
+
+/-- what an ordering reload needs of the adapter's store for the invariant: no section delivers a rule twice.  NOTHING
+    is asked about sizes, priorities or the hierarchy: stores with short grouping rules, unorderable priorities,
+    cyclic hierarchies are admissible - the reload fails on them, and a failed reload keeps the invariant. -/
+structure StoreNodup (st : Pol) : Prop where
+  p : st.p.Nodup
+  g : st.g.Nodup
+  g2 : st.g2.Nodup
+
+/-- admissible calls of an ordering enforcer: as in C04 for the management calls; ordering reloads from any
+    duplicate-free store -/
 def OpOKO (cfg : Cfg) (s : St) : OpO → Prop
   | .base op => OpOK cfg s op
-  | .loadOrd _ => PolOK cfg s.store
+  | .loadOrd _ => StoreNodup s.store
 
 theorem coherent_loadOrd (cfg : Cfg) (o : OrdCfg) (s : St) (h : Coherent cfg s) (k : Option Nat)
-    (hok : PolOK cfg s.store) : Coherent cfg (loadOrd cfg o s k).1 := by
+    (hok : StoreNodup s.store) : Coherent cfg (loadOrd cfg o s k).1 := by
   cases hr : (loadOrd cfg o s k).2 with
   | error e => exact (failed_loadOrd_coherent cfg o s h k e hr).2.1
   | ok r =>
     obtain ⟨new, ho, hpol, hlinks, _⟩ := successful_loadOrd_installs_ordered cfg o s h.auto k r hr
     obtain ⟨hperm, hg, hg2⟩ := orderStore_perm o s.store new ho
-    have hnew : PolOK cfg new := ⟨hperm.nodup_iff.mpr hok.p, hg ▸ hok.g, hg2 ▸ hok.g2, hg ▸ hok.sg, hg2 ▸ hok.sg2⟩
+    obtain ⟨hsg, hsg2⟩ := rebuildAll_ok_sized cfg new _ hlinks
+    have hnew : PolOK cfg new := ⟨hperm.nodup_iff.mpr hok.p, hg ▸ hok.g, hg2 ▸ hok.g2, hsg, hsg2⟩
     obtain ⟨l, h1, h2, h3, h4, h5⟩ := rebuildAll_spec cfg new hnew.sg hnew.sg2
     rw [h1] at hlinks; cases hlinks
     have hab : (loadOrd cfg o s k).1.autoBuild = true := by
@@ -740,6 +926,30 @@ example :
     (stepO exCfg exPrio (stepO exCfg exPrio (exS st) ops[0]).1 ops[1]).2 = .error (.ord .typeError) ∧
     (runO exCfg exPrio (exS st) ops).pol.g = [["bob", "admin"]] ∧ (runO exCfg exPrio (exS st) ops).links.g = [["bob", "admin"]] := by
   decide
+
+/-- domains (`examples/subject_priority_model_with_domain.conf`): the reverse assignment in the SAME domain is a
+    cycle, in another domain it is not; a rule without domain field raises `IndexError`; the ordered rules put the
+    subject before the role it inherits from in that domain -/
+example :
+    let o := OShape.subjDom.ordCfg
+    let p := [["admin", "data1", "d1", "read", "deny"], ["alice", "data1", "d1", "read", "allow"]]
+    orderStore o { p := p, g := [["alice", "admin", "d1"], ["admin", "alice", "d1"]] } = .error .cycle ∧
+    (orderStore o { p := p, g := [["alice", "admin", "d1"], ["admin", "alice", "d2"]] }).toOption.map (·.p) =
+      some [["alice", "data1", "d1", "read", "allow"], ["admin", "data1", "d1", "read", "deny"]] ∧
+    orderStore o { p := p ++ [["alice", "data1"]], g := [["alice", "admin", "d1"]] } = .error .indexError := by
+  decide
+
+/-- the stable-sort theorems are not vacuous: string keys, with a tie -/
+example : ∃ l', sortByPriorityE 0 [["b", "x"], ["a", "y"], ["b", "z"]] = .ok l' ∧ l' = [["a", "y"], ["b", "x"], ["b", "z"]] :=
+  ⟨_, by decide, rfl⟩
+
+/-- `RunOKO` accepts ill-formed stores: a history whose two reloads both fail (short grouping rule, then an unorderable
+    priority) - `coherent_runO` applies to it -/
+example :
+    let st1 : Pol := { p := [["1", "bob", "data1", "read", "allow"]], g := [["bob"]] }
+    RunOKO exCfg exPrio (exS st1) [.loadOrd none, .base .savePolicy, .loadOrd none] ∧
+    (stepO exCfg exPrio (exS st1) (.loadOrd none)).2 = .error (.enf .shortGroupingRule) := by
+  refine ⟨⟨⟨by decide, by decide, by decide⟩, trivial, ⟨by decide, by decide, by decide⟩, trivial⟩, by decide⟩
 
 end Examples
 
